@@ -3,6 +3,7 @@ import PedalProofs.TimeoutLemmasG
 import PedalProofs.TimeoutLemmasT
 import PedalProofs.TimeoutLemmasR
 import PedalProofs.TimeoutLemmasD
+import PedalProofs.TimeoutLemmasIR
 /-
 C14 — a time-limit violation yields exactly one timeout report and a usable sandbox.
 
@@ -12,8 +13,12 @@ driver executes, for EVERY student program `p : Prog` and EVERY schedule `sched 
 (any interleaving of the grader thread and the student thread, of any length), by induction
 over the schedule with the invariants `Inv` / `InvData` (TimeoutLemmas*).
 
-`cfg_fixed` is where the tree under test enters: it holds by `rfl` exactly when the translator
-found the claim protocol, the complete TimeoutError handler and the id bump in the source.
+`cfg_fixed` is where the tree under test enters.  `cfg` is COMPUTED (PedalModel/Timeout.lean, TimeoutIR.lean) from the
+decision trees of `timeout()`, `Sandbox._stop_mocking` and the TimeoutError handler that the translator regenerates on
+every run (read from the AST with helpers inlined and locals followed, and measured on the running code): the trees
+are evaluated on every answer to the questions the code asks, so `cfg_fixed` holds for every way of writing the same
+protocol, and fails when a fact is absent, not established by either source, contradictory, or present on one side
+only (PedalProofs/TimeoutLemmasIR.lean pins what the fact functions accept and refuse).
 -/
 namespace Pedal.Timeout
 
